@@ -95,3 +95,67 @@ def check_C11(ctx, rep):
         rep.check(va.get(k) == vb.get(k), "R25c", "const " + k, "cfg-diff-const:" + k, "constant %s differs between configurations" % k, nontrivial=False)
     rep.analysed["bodies_compared"] = n; rep.analysed["by_tree"] = n_tree; rep.analysed["by_raw_mir"] = n_raw
     rep.floor("R25", n, 380, "function bodies present in both configurations")
+
+
+# ------------------------------------------------------------------ configuration transfer (every other property)
+
+def same_body(fa, a, fb, b):
+    """(same?, how) for one body in the two configurations (fma provider abstracted)"""
+    try:
+        ta = H.tree_of(fa, a, "op", max_nodes=4000); tb = H.tree_of(fb, b, "op", max_nodes=4000)
+        ta = vg.map_tree(ta, norm.strip_provider); tb = vg.map_tree(tb, norm.strip_provider)
+        return ta == tb, "op-level decision trees identical"
+    except (vg.Unsupported, RecursionError):
+        return canon_mir(a.mir) == canon_mir(b.mir) and canon_mir(a.promoted) == canon_mir(b.promoted), "canonicalised MIR identical"
+
+def transfer(ctx, rep, covered):
+    """RB: the rules of a property are decided on the default-feature build; they carry over to the no_std
+    build because every body they evaluated is the same there, the only difference being the fused
+    multiply-add provider, which must be libm::fma(x, y, z) behind the crate's single wrapper."""
+    fa = ctx.facts("A"); fb = ctx.facts("B")
+    ia = {b.ident(): b for b in fa.live if b.kind != "Closure"}
+    ib = {b.ident(): b for b in fb.live if b.kind != "Closure"}
+    sites_b = direct_fma_sites(fb)
+    wrappers = sorted({s[0] for s in sites_b})
+    bad = []
+    if not (len(wrappers) == 1 and all(s[1] == ALLOWED["B"] for s in sites_b)):
+        bad.append(("fma-sites", "the no_std build reaches a fused multiply-add from %s (expected one wrapper calling libm::fma)" % (sites_b,), None))
+    for w in wrappers:
+        b = fb.get(w)
+        if b is None:
+            continue
+        try:
+            t = H.tree_of(fb, b, "prim")
+            ok = t[0] == "leaf" and tag(t[1]) == "f" and t[1][1] == "fma" and t[1][2] is P(0) and t[1][3] is P(1) and t[1][4] is P(2)
+        except vg.Unsupported:
+            ok = False
+        if not ok:
+            bad.append(("fma-wrapper", "the crate's fma wrapper in the no_std build is not libm::fma(x, y, z) on every path", b))
+    all_w = {s[0] for s in direct_fma_sites(fa)} | set(wrappers)
+    n = 0
+    for i in sorted(covered):
+        if i.startswith("closure:") or i in all_w:
+            continue
+        a, b = ia.get(i), ib.get(i)
+        if a is None:
+            continue
+        if b is None:
+            if a.output in (TF, "f64") or TF in (a.inputs or []):
+                bad.append(("cfg-only:" + i, "%s exists only in the default-feature build" % i, a))
+            continue
+        n += 1
+        same, how = same_body(fa, a, fb, b)
+        if not same:
+            bad.append(("cfg-diff:" + i, "%s differs between default features and --no-default-features" % i, a))
+    va = {F.norm_path(c["path"]): (c.get("val") or {}).get("hex") or (c.get("val") or {}).get("bits") for c in fa.consts}
+    vb = {F.norm_path(c["path"]): (c.get("val") or {}).get("hex") or (c.get("val") or {}).get("bits") for c in fb.consts}
+    for k in sorted(set(va) & set(vb)):
+        if "::tests::" in k or "::test::" in k:
+            continue
+        if va[k] != vb[k]:
+            bad.append(("cfg-diff-const:" + k, "constant %s differs between configurations" % k, None))
+    for key, msg, b in bad:
+        rep.fail("RB", "configuration transfer: " + key, "transfer:" + key, msg, where=H.where(b) if b is not None else None)
+    if not bad:
+        rep.ok("RB", "configuration transfer (%d bodies, constants, fma wrapper)" % n, detail="bodies evaluated by this check are identical in the no_std build; provider there is libm::fma(x, y, z)", nontrivial=False)
+    rep.analysed["transfer_bodies"] = n
